@@ -3,7 +3,7 @@
  "name": "block_alloc_stats2",
  "props": ["C09"],
  "level": "U",
- "tier": "wip",
+ "tier": "quick",
  "harness": "h_block_alloc_stats2",
  "enforce": ["ext2fs_block_alloc_stats2"],
  "functions": ["lib/ext2fs/alloc_stats.c:ext2fs_block_alloc_stats2"],
@@ -36,7 +36,7 @@
  "name": "inode_alloc_stats2_nonzero",
  "props": ["C09"],
  "level": "U",
- "tier": "wip",
+ "tier": "quick",
  "harness": "h_inode_alloc_stats2_nonzero",
  "enforce": ["ext2fs_inode_alloc_stats2"],
  "functions": ["lib/ext2fs/alloc_stats.c:ext2fs_inode_alloc_stats2"],
@@ -88,6 +88,7 @@ void ext2fs_inode_alloc_stats2(ext2_filsys fs, ext2_ino_t ino, int inuse, int is
 	REQUIRES(!INO_VALID(fs, ino) || (IN.group < fs->group_desc_count &&
 		IN.group * fs->super->s_inodes_per_group < ino &&
 		ino - IN.group * fs->super->s_inodes_per_group <= fs->super->s_inodes_per_group &&
+		fs->super->s_inodes_per_group <= 0xFFFFFFFEu &&
 		IN.group * fs->super->s_inodes_per_group <= 0xFFFFFFFEu - fs->super->s_inodes_per_group))
 	REQUIRES(g_gunused <= fs->super->s_inodes_per_group)
 	REQUIRES(g_gfresh == 1 && g_cb_calls == 0 && g_badgroup == 0 && g_touch == 0)
@@ -149,7 +150,7 @@ static void inode_body(void)
 	ASSUME(IN.inuse == 1 || IN.inuse == -1);
 	int valid = IN.ino >= 1 && IN.ino <= IN.inodes_count;
 	unsigned int base = IN.group * IN.ipg;
-	ASSUME(!valid || (IN.group < IN.group_desc_count && base < IN.ino && IN.ino - base <= IN.ipg && base <= 0xFFFFFFFEu - IN.ipg));
+	ASSUME(!valid || (IN.group < IN.group_desc_count && base < IN.ino && IN.ino - base <= IN.ipg && IN.ipg <= 0xFFFFFFFEu && base <= 0xFFFFFFFEu - IN.ipg));
 	ASSUME(g_gunused <= IN.ipg);
 	int bit0 = g_bit, flags0 = FS.flags;
 	unsigned int gfree0 = g_gfree, gflags0 = g_gflags, gdirs0 = g_gdirs, gunused0 = g_gunused, sfi0 = SB.s_free_inodes_count;
